@@ -137,6 +137,9 @@ theorem tr_setVersion3 (s : S) : Tr s [] (setVersion3 s) := A.Run.ofSoft (soft_s
 
 def isHs : Ev → Bool | .wrHS .. => true | _ => false
 def isAccept : Ev → Bool | .accept .. => true | _ => false
+def isForget : Ev → Bool | .forget .. => true | _ => false
+/-- an event that only changes the session key held for the connection -/
+def isKeyEv : Ev → Bool | .accept .. => true | .forget .. => true | _ => false
 def isClosed : Ev → Bool | .closed .. => true | _ => false
 
 /-- a handshake request carrying the token `tok` -/
@@ -218,6 +221,17 @@ theorem opAccept_tr (s : S) (lk : Bytes) (exp : Nat) (c : Core) (hc : coreOf s =
     · simp [A.eff, abs, coreOf, hconn, logEv, withKey]
     · simp [abs, evsOf, logEv]
 
+theorem opForget_tr (s : S) :
+    (∃ c, coreOf s = some c ∧ Tr s [.forget c.cid] (opForget s) ∧ coreOf (opForget s) = some (noKey c)) ∨
+    (coreOf s = none ∧ opForget s = s) := by
+  unfold opForget
+  cases hconn : s.l.conn with
+  | none => exact .inr ⟨by simp [coreOf, hconn], rfl⟩
+  | some cn =>
+    refine .inl ⟨cn.core, by simp [coreOf, hconn], A.Run.ofStep ⟨?_, ?_, rfl⟩, by simp [coreOf, logEv, noKey]⟩
+    · simp [A.eff, abs, coreOf, hconn, logEv, noKey]
+    · simp [abs, evsOf, logEv]
+
 theorem opDisconnect_tr (s : S) :
     coreOf (opDisconnect s) = none ∧
     ((∃ c, coreOf s = some c ∧ Tr s [.closed c.cid] (opDisconnect s)) ∨ (coreOf s = none ∧ opDisconnect s = s)) := by
@@ -276,8 +290,8 @@ theorem Tr.congr_right {s s0 s' : S} {tr : List Ev} (he : abs s' = abs s0) (h : 
 
 theorem HsTok.notClosed {t : Option Bytes} {e : Ev} (h : HsTok t e) : isClosed e = false := by
   obtain ⟨_, _, _, rfl, _⟩ := h; rfl
-theorem notClosed_of_isAccept {e : Ev} (h : isAccept e = true) : isClosed e = false := by
-  cases e <;> simp_all [isAccept, isClosed]
+theorem notClosed_of_isAccept {e : Ev} (h : isKeyEv e = true) : isClosed e = false := by
+  cases e <;> simp_all [isKeyEv, isClosed]
 
 theorem acceptReply_tr {p : Params} {s s' : S} {key raw : Bytes} {r : R Unit} (c : Core) (hc : coreOf s = some c)
     (h : acceptReply p s key raw = (r, s')) :
@@ -290,23 +304,42 @@ theorem acceptReply_tr {p : Params} {s s' : S} {key raw : Bytes} {r : R Unit} (c
     · cases h; exact .inr ⟨⟨_, rfl⟩, rfl⟩
     · cases h; exact .inl ⟨rfl, _, opAccept_tr s _ _ c hc⟩
 
-/-- one handshake attempt: at most a handshake request carrying the token, then possibly an acceptance -/
+/-- one handshake attempt: the previous key is forgotten, at most one handshake request carrying the
+    token is written, then possibly an acceptance -/
 theorem protoAuthenticate_tr {p : Params} {rx : Reactions} {s s' : S} {token key : Option Bytes} {r : R Unit}
     (h : protoAuthenticate p rx s token key = (r, s')) :
-    ∃ tr, Tr s tr s' ∧ (∀ e ∈ tr, HsTok token e ∨ isAccept e = true) ∧
+    ∃ tr, Tr s tr s' ∧ (∀ e ∈ tr, HsTok token e ∨ isKeyEv e = true) ∧
       (r = .ok () → ∃ e ∈ tr, isAccept e = true) := by
   unfold protoAuthenticate at h
   split at h
   · rename_i tk ky
     split at h
     · cases h; exact ⟨[], Tr.rfl' _, by simp, by intro h; cases h⟩
-    · split at h
-      · cases h; exact ⟨[], Tr.ofEq (abs_flush s), by simp, by intro h; cases h⟩
-      · cases h; exact ⟨[], Tr.ofEq (abs_flush s), by simp, by intro h; cases h⟩
+    · -- the state after flush + forget, and its trace
+      have hf : ∃ tf, Tr s tf (opForget (flush s)) ∧ (∀ e ∈ tf, HsTok (some tk) e ∨ isKeyEv e = true) ∧
+          (∀ c', coreOf (opForget (flush s)) = some c' → ∃ c, tf = [.forget c.cid] ∧ c' = noKey c) := by
+        rcases opForget_tr (flush s) with ⟨c, hc, ht, hc'⟩ | ⟨hc, he⟩
+        · refine ⟨_, Tr.congr_left (abs_flush s) ht, ?_, ?_⟩
+          · intro e he; simp only [List.mem_singleton] at he; subst he; exact .inr rfl
+          · intro c' hcc; rw [hc'] at hcc; cases hcc; exact ⟨c, rfl, rfl⟩
+        · refine ⟨[], ?_, by simp, ?_⟩
+          · rw [he]; exact Tr.ofEq (abs_flush s)
+          · intro c' hcc; rw [he, hc] at hcc; cases hcc
+      obtain ⟨tf, htf, hshapef, hcoref⟩ := hf
+      split at h
+      · cases h; exact ⟨tf, htf, hshapef, by intro h; cases h⟩
+      · cases h; exact ⟨tf, htf, hshapef, by intro h; cases h⟩
       · rename_i s1 hw
-        obtain ⟨c, hc, ht, hc1⟩ := opWriteHS_tr hw
-        have ht : Tr s [.wrHS c.cid c.packetId tk] s1 := Tr.congr_left (abs_flush s) ht
-        have hhs : HsTok (some tk) (.wrHS c.cid c.packetId tk) := ⟨_, _, _, rfl, rfl⟩
+        obtain ⟨c', hc', ht, hc1⟩ := opWriteHS_tr hw
+        obtain ⟨c, rfl, rfl⟩ := hcoref c' hc'
+        have ht : Tr s ([.forget c.cid] ++ [.wrHS (noKey c).cid (noKey c).packetId tk]) s1 := htf.trans ht
+        have hshape1 : ∀ e ∈ [Ev.forget c.cid] ++ [Ev.wrHS (noKey c).cid (noKey c).packetId tk],
+            HsTok (some tk) e ∨ isKeyEv e = true := by
+          intro e he
+          simp only [List.cons_append, List.nil_append, List.mem_cons, List.not_mem_nil, or_false] at he
+          rcases he with rfl | rfl
+          · exact .inr rfl
+          · exact .inl ⟨_, _, _, rfl, rfl⟩
         split at h
         · rename_i s2 hq
           simp only [Prod.mk.injEq] at h
@@ -314,36 +347,32 @@ theorem protoAuthenticate_tr {p : Params} {rx : Reactions} {s s' : S} {token key
           have ha : abs s2 = abs s1 := by
             have := abs_awaitQueue (s1.w.pending.length + 1) s1 (s1.w.now + p.readTimeout)
             rw [hq] at this; exact this
-          refine ⟨_, Tr.congr_right ha ht, ?_, by intro h; cases h⟩
-          intro e he; simp only [List.mem_singleton] at he; subst he; exact .inl hhs
+          exact ⟨_, Tr.congr_right ha ht, hshape1, by intro h; cases h⟩
         · rename_i s2 hq
           simp only [Prod.mk.injEq] at h
           obtain ⟨rfl, rfl⟩ := h
           have ha : abs s2 = abs s1 := by
             have := abs_awaitQueue (s1.w.pending.length + 1) s1 (s1.w.now + p.readTimeout)
             rw [hq] at this; exact this
-          refine ⟨_, Tr.congr_right ha ht, ?_, by intro h; cases h⟩
-          intro e he; simp only [List.mem_singleton] at he; subst he; exact .inl hhs
+          exact ⟨_, Tr.congr_right ha ht, hshape1, by intro h; cases h⟩
         · rename_i raw s2 hq
           have ha : abs s2 = abs s1 := by
             have := abs_awaitQueue (s1.w.pending.length + 1) s1 (s1.w.now + p.readTimeout)
             rw [hq] at this; exact this
-          have hc2 : coreOf s2 = some (bump c) := by rw [coreOf_of_abs ha]; exact hc1
-          rcases acceptReply_tr (bump c) hc2 h with ⟨rfl, lk, hta⟩ | ⟨⟨e, rfl⟩, rfl⟩
-          · refine ⟨_, (Tr.congr_right ha ht).trans hta, ?_, fun _ => ⟨.accept (bump c).cid lk, by simp, rfl⟩⟩
+          have hc2 : coreOf s2 = some (bump (noKey c)) := by rw [coreOf_of_abs ha]; exact hc1
+          rcases acceptReply_tr (bump (noKey c)) hc2 h with ⟨rfl, lk, hta⟩ | ⟨⟨e, rfl⟩, rfl⟩
+          · refine ⟨_, (Tr.congr_right ha ht).trans hta, ?_, fun _ => ⟨.accept (bump (noKey c)).cid lk, by simp, rfl⟩⟩
             intro e he
-            simp only [List.cons_append, List.nil_append, List.mem_cons, List.not_mem_nil, or_false] at he
-            rcases he with rfl | rfl
-            · exact .inl hhs
-            · exact .inr rfl
-          · refine ⟨_, Tr.congr_right ha ht, ?_, by intro h; cases h⟩
-            intro e he; simp only [List.mem_singleton] at he; subst he; exact .inl hhs
+            rcases List.mem_append.1 he with he | he
+            · exact hshape1 e he
+            · simp only [List.mem_singleton] at he; subst he; exact .inr rfl
+          · exact ⟨_, Tr.congr_right ha ht, hshape1, by intro h; cases h⟩
   · cases h; exact ⟨[], Tr.rfl' _, by simp, by intro h; cases h⟩
 
 /-- the retry loop of `LAN.authenticate` -/
 theorem authLoop_tr {p : Params} {rx : Reactions} {token key : Option Bytes} (n : Nat) {s s' : S} {r : R Unit}
     (h : authLoop p rx token key n s = (r, s')) :
-    ∃ tr, Tr s tr s' ∧ (∀ e ∈ tr, HsTok token e ∨ isAccept e = true ∨ isClosed e = true) ∧
+    ∃ tr, Tr s tr s' ∧ (∀ e ∈ tr, HsTok token e ∨ isKeyEv e = true ∨ isClosed e = true) ∧
       (r = .ok () → (∀ e ∈ tr, isClosed e = false) ∧ ((n = 0 ∧ s' = s) ∨ ∃ e ∈ tr, isAccept e = true)) := by
   induction n generalizing s with
   | zero =>
@@ -364,7 +393,7 @@ theorem authLoop_tr {p : Params} {rx : Reactions} {token key : Option Bytes} (n 
         · exact notClosed_of_isAccept h1
     · rename_i s1 hp
       obtain ⟨tr1, ht1, hshape1, _⟩ := protoAuthenticate_tr hp
-      have hs1 : ∀ e ∈ tr1, HsTok token e ∨ isAccept e = true ∨ isClosed e = true := by
+      have hs1 : ∀ e ∈ tr1, HsTok token e ∨ isKeyEv e = true ∨ isClosed e = true := by
         intro e he; rcases hshape1 e he with h1 | h1
         · exact .inl h1
         · exact .inr (.inl h1)
@@ -421,7 +450,7 @@ theorem lanAuthenticate_tr {p : Params} {rx : Reactions} {s s' : S} {token key :
     (h : lanAuthenticate p rx s token key n = (r, s')) :
     ∃ s1 tc ta, Tr s tc s1 ∧ Tr s1 ta s' ∧
       (∀ e ∈ tc, isClosed e = true ∨ isConnect e = true) ∧
-      (∀ e ∈ ta, HsTok (pickCred token key s.l.token) e ∨ isAccept e = true ∨ isClosed e = true) ∧
+      (∀ e ∈ ta, HsTok (pickCred token key s.l.token) e ∨ isKeyEv e = true ∨ isClosed e = true) ∧
       (connAlive s = true → isV3 s = true → tc = []) ∧
       (connAlive s = false ∨ isV3 s = false → ∀ c, coreOf s = some c → ∃ tc', tc = .closed c.cid :: tc') ∧
       (r = .ok () → (∀ e ∈ ta, isClosed e = false) ∧
@@ -805,6 +834,9 @@ theorem cancelAt_opWriteHS {rx : Reactions} {s s' : S} {tok : Bytes} (h : opWrit
       · cases h
       · cases h; rfl
 
+theorem cancelAt_opForget (s : S) : (opForget s).w.cancelAt = s.w.cancelAt := by
+  unfold opForget; split <;> rfl
+
 theorem cancelAt_opAccept (s : S) (lk : Bytes) (e : Nat) : (opAccept s lk e).w.cancelAt = s.w.cancelAt := by
   unfold opAccept; split <;> rfl
 
@@ -829,7 +861,8 @@ theorem cancelAt_acceptReply {p : Params} {s s' : S} {key raw : Bytes} {r : R Un
 
 theorem noCancel_protoAuthenticate {p : Params} {rx : Reactions} {s s' : S} {token key : Option Bytes} {r : R Unit}
     (hn : s.w.cancelAt = none) (h : protoAuthenticate p rx s token key = (r, s')) : s'.w.cancelAt = none := by
-  have hf : (flush s).w.cancelAt = none := by unfold flush; rw [cancelAt_softConn]; exact hn
+  have hf : (opForget (flush s)).w.cancelAt = none := by
+    rw [cancelAt_opForget]; unfold flush; rw [cancelAt_softConn]; exact hn
   unfold protoAuthenticate at h
   split at h
   · split at h
@@ -924,7 +957,7 @@ theorem pickCred_none (stored : Option Bytes) : pickCred none none stored = stor
 theorem ensureAuth_tr {p : Params} {rx : Reactions} {s s' : S} {r : R Unit} (h : ensureAuth p rx s = (r, s')) :
     ∃ s1 tc ta, Tr s tc s1 ∧ Tr s1 ta s' ∧
       (∀ e ∈ tc, isClosed e = true ∨ isConnect e = true) ∧
-      (∀ e ∈ ta, HsTok s.l.token e ∨ isAccept e = true ∨ isClosed e = true) ∧
+      (∀ e ∈ ta, HsTok s.l.token e ∨ isKeyEv e = true ∨ isClosed e = true) ∧
       (connAlive s = true → tc = []) ∧
       (r = .ok () → (∀ e ∈ ta, isClosed e = false) ∧
           (isV3 s = true → authenticated s = false → ∃ e ∈ ta, isAccept e = true)) := by
@@ -965,7 +998,7 @@ theorem lanSend_tr {p : Params} {rx : Reactions} {s s' : S} {frame : Bytes} {n :
     (h : lanSend p rx s frame n = (r, s')) :
     ∃ s1 s2 tc ta te, Tr s tc s1 ∧ Tr s1 ta s2 ∧ Tr s2 te s' ∧
       (∀ e ∈ tc, isClosed e = true ∨ isConnect e = true) ∧
-      (∀ e ∈ ta, HsTok s.l.token e ∨ isAccept e = true ∨ isClosed e = true) ∧
+      (∀ e ∈ ta, HsTok s.l.token e ∨ isKeyEv e = true ∨ isClosed e = true) ∧
       (∀ e ∈ te, DataOf frame e ∨ isClosed e = true) ∧
       nData te ≤ n ∧
       (connAlive s = true → tc = []) ∧
